@@ -804,7 +804,7 @@ let () =
          (* 1- and 2-byte elements carry only their id (stamp and value are 0); zero-sized elements
             carry nothing, and the harness' rehash hasher cannot recover the hash they were
             inserted with: for those only the safety invariant is judged *)
-         let tiny = Z.leb cfg.tsize (zi 2) in
+         let tiny = Z.leb cfg.tsize (zi 3) in
          let op = if not tiny then op else (match op with
            | TFindMut (hk, p, _) -> TFindMut (hk, p, Z0)
            | TRemoveReinsert (hk, p, _, _) -> TRemoveReinsert (hk, p, Z0, Z0)
@@ -1025,6 +1025,12 @@ let () =
          let refuse = List.exists (fun w -> w = ["refuse_nth"; "0"]) armws in
          let other_arm = List.exists (fun w -> match w with
            | [] | ["-"] | ["hashpanic_key"; _] | ["refuse_nth"; "0"] -> false | _ -> true) armws in
+         (* a single armed closure panic on retain / extract_if is modelled (Model/PanicOps.v): level C
+            then runs m_retain_p / m_extract_p with the closure that panics on the k-th visited element *)
+         let pred_panic = (match armws with
+           | [["predpanic_nth"; k]] when List.mem opname ["retain"; "extractif"] -> (try Some (int_of_string k) with _ -> None)
+           | _ -> None) in
+         let other_arm = other_arm && pred_panic = None in
          let lawful = not (is_calldep cfg.rule) && cfg.eqrule = "lawful" in
          let hf = hash_of None in
          let hasher (e : kv) = hf e.k_id in
@@ -1082,7 +1088,21 @@ let () =
                          | Fail e -> Fail e
                          | Ok (_, evd) -> bump branch "from_iter"; Ok ((t1, OutUnit), evs @ evd))))
                 | _ -> Fail UB_unreachable)
-             else if is_rentry then begin
+             else if pred_panic <> None then begin
+               bump branch "closure_panic_model";
+               let k = (match pred_panic with Some k -> k | None -> 0) in
+               let occ = occupants tpre in
+               let victim = (try Some (List.nth occ k) with _ -> None) in
+               let is_victim (e : kv) = (match victim with Some v -> Z.eqb v.k_id e.k_id && Z.eqb v.k_stamp e.k_stamp | None -> false) in
+               (match op with
+                | OpRetain (keep, bump_) ->
+                  m_retain_p cfg.backend cfg.needs_drop tpre
+                    (fun e -> if is_victim e then None else Some (List.exists (fun x -> Z.eqb x e.k_id) keep)) bump_
+                | OpExtractIf (sel, n) ->
+                  m_extract_p cfg.backend tpre
+                    (fun e -> if is_victim e then None else Some (List.exists (fun x -> Z.eqb x e.k_id) sel)) n
+                | _ -> Fail UB_unreachable)
+             end else if is_rentry then begin
                bump branch "rustc_entry_model";
                let act = (match opname with
                  | "rentry_or_insert" -> ActOrInsert (zarg 3) | "rentry_insert" -> ActInsert (zarg 3)
@@ -1127,6 +1147,63 @@ let () =
               if Z.eqb tpre.growth_left Z0 then bump branch "pre_growth_left_0";
               if int_of_nat tpre.mask + 1 < cfg.gw && int_of_nat tpre.mask > 0 then bump branch "small_table")
          end else incr c_skipped;
+         (* ---- level C for the owning iterators (Model/OwnIter.v, Properties/C03o.v): into_iter /
+            into_keys / into_values consumed by next() and / or a (possibly panicking) fold consumer,
+            drain consumed through for_each, and leaked (mem::forget) IntoIter / Drain: yielded elements in
+            order, destructor and release events in order, the collection afterwards ---- *)
+         let own_ops = ["intoiter"; "intokeys"; "intovalues"; "intoiterfold"; "intokeysfold"; "intovaluesfold"; "forget_iter"; "forget_drain"] in
+         if do_c && lawful && arm = "-" && List.mem opname own_ops && not is_libpanic then begin
+           incr c_checked;
+           bump branch "owning_iterator_model";
+           let total = List.length (occupants tpre) in
+           let argi i = (try int_of_string (List.nth opws i) with _ -> max_int) in
+           let expect_n = (match opname with
+             | "intoiter" | "forget_iter" | "forget_drain" -> min (argi 1) total
+             | "intokeys" | "intovalues" -> total
+             | _ -> let k = argi 2 in if k >= 1000000 then total else min (argi 1 + k + 1) total) in
+           let drop_ok (_ : kv) = true in
+           let strip_r e = (let ws = List.filter (fun w -> not (String.length w > 2 && String.sub w 0 2 = "R:")) (words e) in if ws = [] then "-" else String.concat " " ws) in
+           let cmp_list (es : kv list) =
+             (match ret with
+              | Some (OutList l) ->
+                let proj (e : kv) = (match opname with
+                  | "intokeysfold" -> Printf.sprintf "%s:%s" (string_of_z e.k_id) (string_of_z e.k_stamp)
+                  | "intovaluesfold" -> string_of_z e.v_val
+                  | _ -> kv_text e) in
+                let a = String.concat "," (List.map proj es) and b = String.concat "," (List.map proj l) in
+                if a <> b then say "C-MISMATCH %s: owning iterator yields: model [%s] impl [%s]" where a b
+              | _ -> say "C-MISMATCH %s: owning iterator: unparsable result [%s]" where ret_s) in
+           (match opname with
+            | "forget_iter" ->
+              (match into_iter_leak cfg.backend cfg.tsize cfg.talign tpre (nat_of_int expect_n) with
+               | Fail e -> say "C-MISMATCH %s: model (into_iter_leak) stops with %s" where (err_text e)
+               | Ok (es, evs) ->
+                 cmp_list es;
+                 if ev_text evs <> strip_r (if ev_s = "" then "-" else ev_s) then say "C-MISMATCH %s: events of a leaked IntoIter: model [%s] impl [%s]" where (ev_text evs) ev_s;
+                 if table_text (new_table cfg.backend) <> dump_text post then say "C-MISMATCH %s: collection after into_iter: impl [%s]" where (dump_text post))
+            | "forget_drain" ->
+              (match drain_leak cfg.backend tpre (nat_of_int expect_n) with
+               | Fail e -> say "C-MISMATCH %s: model (drain_leak) stops with %s" where (err_text e)
+               | Ok ((t', es), evs) ->
+                 cmp_list es;
+                 if ev_text evs <> strip_r (if ev_s = "" then "-" else ev_s) then say "C-MISMATCH %s: events of a leaked Drain: model [%s] impl [%s]" where (ev_text evs) ev_s;
+                 if table_text t' <> dump_text post then say "C-MISMATCH %s: collection after a leaked Drain: model [%s] impl [%s]" where (table_text t') (dump_text post))
+            | _ ->
+              (match into_iter_consume cfg.backend cfg.tsize cfg.talign cfg.needs_drop drop_ok tpre (nat_of_int expect_n) with
+               | Fail e -> say "C-MISMATCH %s: model (into_iter_consume) stops with %s" where (err_text e)
+               | Ok ((es, evs), _) ->
+                 cmp_list es;
+                 (* into_keys / into_values: the adaptor drops the other half of every pair it yields; the
+                    harness logs that as a drop of the pair.  Only the release of the block is compared there
+                    (the registry checks that each object is dropped exactly once). *)
+                 let halves = List.mem opname ["intokeys"; "intovalues"; "intokeysfold"; "intovaluesfold"] in
+                 let no_dt e = (let ws = List.filter (fun w -> not (String.length w > 3 && String.sub w 0 3 = "DT:")) (words e) in if ws = [] then "-" else String.concat " " ws) in
+                 let me = if halves then no_dt (ev_text evs) else ev_text evs in
+                 let ie = strip_r (if ev_s = "" then "-" else ev_s) in
+                 let ie = if halves then no_dt ie else ie in
+                 if me <> ie then say "C-MISMATCH %s: events of the owning iterator: model [%s] impl [%s]" where me ie;
+                 if table_text (new_table cfg.backend) <> dump_text post then say "C-MISMATCH %s: collection after into_iter: impl [%s]" where (dump_text post)))
+         end;
          (* ---- level A ---- *)
          if do_a && lawful && !spec_valid && own_rule then begin
            (* from_par_iter builds a separate map: its contents are `first key object, last value` of the
